@@ -347,7 +347,7 @@ MATH_FNS = {"C12": "sqrt,log2,ln,exp,pow,powi,sin,cos,tan", "C13": "sqrt", "C14"
 def plan_math(pid, tier, seed):
     fns = MATH_FNS[pid]
     profs = ["unchecked", "checked"] if pid in ("C12", "C17") else ["unchecked"]
-    per = {"C12": 8000, "C13": 1500, "C14": 300, "C15": 400, "C16": 250, "C17": 8000}[pid]
+    per = {"C12": 2500, "C13": 1500, "C14": 300, "C15": 400, "C16": 250, "C17": 8000}[pid]
     gens = [dict(name="math_" + p, profile=p, bin="math", dom="big", per_shard=per,
                  args=["--topic", fns, "--tier", tier, "--seed", str(seed)]) for p in profs]
     rules = {
